@@ -73,6 +73,15 @@ fn main() {
             println!("shape after {:?}", gl::stack_shape(&vm));
             println!("host log: {:?}", gl::take_host_log());
         }
+        "render" => {
+            // render <bits>: source on stdin, canonical rendering on stdout (used by C16)
+            use std::io::Read;
+            let bits: u32 = args[2].parse().unwrap();
+            let mut src = String::new();
+            std::io::stdin().read_to_string(&mut src).unwrap();
+            let vm = gl::new_vm(gl::Settings::from_bits(bits));
+            print!("{}", props::c16::render(&vm, "c16a", &src));
+        }
         "probe-case" => {
             // probe-case <Cxx> <json-file-with-case>: run exec in-process and print the observation
             let p = props::lookup(&args[2]).unwrap_or_else(|| usage());
